@@ -1185,12 +1185,12 @@ func TestVerifC10(t *testing.T) {
 		kQ  int // edits, quick tier
 		kT  int // edits, thorough tier
 	}
-	longs := []longPat{
+	longs := []longPat{ // cheapest first: an internal deadline cuts the triple-edit runs, not the long patterns
+		{m1, 1, 1}, {m2, 1, 1}, {m1[32:] + m2[:32], 1, 1},
+		{m1[:63], 1, 2}, {m2[:63], 1, 2}, {m2[1:64], 1, 2},
+		{m1[:32], 1, 2}, {m2[:32], 1, 2},
 		{m1[:8], 2, 3}, {m2[16:24], 2, 3},
 		{m1[:20], 2, 3}, {m2[:20], 2, 3},
-		{m1[:32], 1, 2}, {m2[:32], 1, 2},
-		{m1[:63], 1, 2}, {m2[:63], 1, 2}, {m2[1:64], 1, 2},
-		{m1, 1, 1}, {m2, 1, 1}, {m1[32:] + m2[:32], 1, 1},
 	}
 	ctxs := []string{"", "g", "ca", "tgc"}
 	r.Bound("D_long_patterns", fmt.Sprintf("%d patterns of length 8,20,32,63,64 (all 15 IUPAC codes); copies with <= k edits (quick k=2,2,1,1,1 / thorough k=3,3,2,2,1 by length) at every position; left/right context in %q", len(longs), ctxs))
